@@ -49,6 +49,7 @@ def run(pid, tier, replay=None):
             d = json.loads(mm.group(1))
             ck.violation("replay:kernel%d:width%d" % (d["k"], real), dict(d, what="result differs from the specification's expected array (real width %d)" % real))
         summ["events"] += json.loads(mw.group(1))["events"]
+        summ["scaled"] = summ.get("scaled", 0) + json.loads(mw.group(1)).get("scaled", 0)
     files = sorted(glob.glob(sc.path("g*-*.ndjson")))
     nev, bad = vlib.validate_collect(os.path.join(SPECDIR, "MatTrace.tla"), os.path.join(SPECDIR, "MatTrace.cfg"), files, sc)
     for f, idx, ev in bad:
@@ -56,6 +57,7 @@ def run(pid, tier, replay=None):
     ck.cov["traces_validated_against_impl"] = nev
     ck.cov["evaluations"] = summ["events"]
     ck.cov["distinct_nontrivial"] = summ["events"]
+    ck.part("scaled_products", runs=summ.get("scaled", 0), note="every product case again with operands scaled by 2^-70 / 2^70 and 2^70 / 2^-70: the same array is required")
     with open(files[0]) as fh:
         ck.sample(json.loads(fh.readline()))
     ck.cov["rule"] = "one case = one (kernel, dimensions, coding); 19 kernels; every case has distinct position-identifying contents"
